@@ -180,6 +180,23 @@ func CheckC03(c *Ctx) {
 			}
 			w.Count("modified-cover-cases")
 		})
+		// (2b) COMPLETE: every assignment with at most 3 (thorough: 4) optional metrics defined x all their values
+		{
+			subsets := gen.SparseSubsets(v, c.Pick(3, 4))
+			c.Parallel("at-most-k-defined-"+v.Name, len(subsets), 1, func(w *Worker, i int) {
+				base := gen.KSparseAssign(w.R, v, 0)
+				n := 0
+				gen.EnumSubsetValues(v, base, subsets[i], func(a spec.Assign) {
+					aa := a.Clone()
+					o, steps := buildOrViolate(c, w, api, aa, n%NStyles)
+					if o != nil {
+						v3Check(c, w, api, m, o, aa, steps, nil)
+					}
+					n++
+				})
+				w.CountN("objects-with-at-most-k-optional-metrics-defined", int64(n))
+			})
+		}
 		// (3) random overlays: a random subset of the 8 Modified metrics defined
 		c.Parallel("overlay-"+v.Name, c.Pick(3_000_000, 200_000_000), 1<<13, func(w *Worker, i int) {
 			a := gen.RandomAssign(w.R, v)
@@ -435,6 +452,18 @@ func CheckC04(c *Ctx) {
 			st := styleFor(i)
 			v4Check(c, w, api, a, st, stats, i%1500007 == 0)
 			w.counts["realised:"+[]string{"through-base", "through-Modified", "mixed"}[mode]]++
+		})
+	}
+	{
+		subsets := gen.SparseSubsets(api.Ver, c.Pick(3, 4))
+		c.Parallel("at-most-k-defined", len(subsets), 1, func(w *Worker, i int) {
+			base := gen.KSparseAssign(w.R, api.Ver, 0)
+			n := 0
+			gen.EnumSubsetValues(api.Ver, base, subsets[i], func(a spec.Assign) {
+				v4Check(c, w, api, a.Clone(), n%NStyles, stats, false)
+				n++
+			})
+			w.CountN("objects-with-at-most-k-optional-metrics-defined", int64(n))
 		})
 	}
 	c.Parallel("raw-random", c.Pick(3_000_000, 150_000_000), 1<<13, func(w *Worker, i int) {
